@@ -343,6 +343,32 @@ func refBind(l []c19Param, args []int) (vals []any, ok bool) {
 	return bound, true
 }
 
+// syntactic places for the call under test (one pair in two gets one of
+// them, the others stay a bare statement): after conditional break /
+// continue with empty else / elif blocks, inside branches, loop bodies and
+// literals. Every context executes the call exactly once, and a call that
+// cannot be bound is rejected at load time wherever it stands.
+var c19Ctxs = []string{
+	"for e in [1] {\n  if e == 2 {\n    break\n  } else {\n  }\n  CALL\n}\n",
+	"for e in [1] {\n  if e == 2 {\n    continue\n  } elif e == 3 {\n  }\n  CALL\n}\n",
+	"if true {\n  CALL\n}\n",
+	"for i = 0; i < 1; i = i + 1 {\n  CALL\n  continue\n}\n",
+	"if false {\n} else {\n  CALL\n}\n",
+	"for e in [1, 2] {\n  if e == 1 {\n    continue\n  }\n  CALL\n  break\n}\n",
+	"for e in [1] {\n  if e == 2 {\n    break\n  } elif e == 3 {\n    continue\n  } else {\n  }\n  if true {\n    CALL\n  }\n}\n",
+	"for e in [1] {\n  if e == 1 {\n  } else {\n    break\n  }\n  for q in [1] {\n    if q == 9 {\n      continue\n    } else {\n    }\n    CALL\n  }\n}\n",
+	"x = 0\nfor ; x < 1; x = x + 1 {\n  if x == 5 {\n    break\n  }\n}\nCALL\n",
+	"if false {\n  x = 1\n} elif true {\n  CALL\n} else {\n}\n",
+	"# comment first\n\nCALL # trailing\n",
+}
+
+func c19InContext(i int64, call string) string {
+	if k := int(i % int64(2*len(c19Ctxs))); k < len(c19Ctxs) {
+		return strings.Replace(c19Ctxs[k], "CALL", call, 1)
+	}
+	return call
+}
+
 func callText(args []int) string {
 	p := make([]string, len(args))
 	for j, a := range args {
@@ -375,7 +401,7 @@ func (c19) Describe(c *mon.Ctx, workload string, i int64) any {
 	}
 	nCalls := seqCount(len(c19ArgNames), ma)
 	l := c19ValidLists(mp)[i/nCalls]
-	return map[string]any{"signature": sigString(l), "call": callText(decodeSeq(i%nCalls, len(c19ArgNames), ma))}
+	return map[string]any{"signature": sigString(l), "call": c19InContext(i, callText(decodeSeq(i%nCalls, len(c19ArgNames), ma)))}
 }
 
 func (k c19) Run(c *mon.Ctx, workload string, i int64) {
@@ -455,7 +481,7 @@ func (k c19) Run(c *mon.Ctx, workload string, i int64) {
 			return nil
 		},
 	}
-	src := callText(args)
+	src := c19InContext(i, callText(args))
 	var s *runtimev2.Script
 	var err error
 	var pan any
